@@ -146,7 +146,8 @@ func init() {
 	register(&Property{
 		ID: "C09", Level: "fault_enumeration", EvalCounter: "window_points_checked",
 		Rule: "per drawn protocol configuration (every numeric limit from its own disjoint range, ledger clock skew / jumps): 3 operation types x 7 from-points x 8 " +
-			"until-points placed around the anchoring time the ledger stamps (all orderings and equalities of from, until, t, from+delta); each point goes through the " +
+			"until-points placed around the anchoring time the ledger stamps (all orderings and equalities of from, until, t, from+delta) plus 3 x 26 (from, until) pairs at the edges of " +
+			"the int64 range and beyond 2^53 (where from+delta, until-t, t-from leave the range if computed carelessly; reference predicate in exact integer arithmetic); each point goes through the " +
 			"intake (recording time validator: exact (from, until) arguments) and through Apply (verdict + all fields vs the reference window predicate). " +
 			"distinct_nontrivial = distinct (type, sign(from-t), sign(until-t), sign(from+delta-t), from==0, until==0, verdict) tuples",
 		Cases: func(master uint64, tier string) []Case {
@@ -157,7 +158,7 @@ func init() {
 			return seqCases(master, n, func(int) int { return WindowVariants })
 		},
 		Gen:            func(c Case, pool *Pool) *Plan { return GenWindow(c.Seed, c.Variant, pool) },
-		RequiredProbes: map[string][]string{"quick": {"window_t_eq_from", "window_t_eq_until", "window_t_eq_from_plus_delta"}, "thorough": {"window_t_eq_from", "window_t_eq_until", "window_t_eq_from_plus_delta"}},
+		RequiredProbes: map[string][]string{"quick": {"window_t_eq_from", "window_t_eq_until", "window_t_eq_from_plus_delta", "window_int64_extreme"}, "thorough": {"window_t_eq_from", "window_t_eq_until", "window_t_eq_from_plus_delta", "window_int64_extreme"}},
 		Components:     worldComponents,
 		Assumptions:    worldAssumptions,
 	})
